@@ -117,6 +117,18 @@ CLAIMED = {
         technique="Rocq proof (step simulation + invariant over all histories) + translator-regenerated state machine + in-Coq differential correspondence on a threaded rig",
         design="5/C05",
     ),
+    "C11": dict(
+        text="Theorems (Props/C11.v): for each of the 8 configured defaults and EVERY history of operator switches, S1F15/S1F17 and event enable/disable, the "
+             "model's control state is E30's, what it sends (S1F1 probe, S1F16/S1F18 with the code, collection events when enabled) is among what E30 admits and "
+             "SVID ControlState equals the state (C11_state_refines_e30: one-step refinement decided by evaluation over the finite stable state space x operations, "
+             "lifted to histories by induction); ONLACK 0/1/2 and OFLACK 0 with exactly one reply (C11_ack_codes); refused operator requests change nothing. The "
+             "model interprets programs that harness/gen_control.py regenerates from control_state_machine.py and state_models_capability.py (forwarders, public "
+             "methods with their statement order, S1F15/S1F17 handlers, called-event registrations, _get_control_state_id) over the regenerated transition table.",
+        note=NOTE_COMMON + " Hand-modelled and tied by correspondence only: the attempt-online probe handler, S2F37, exception -> SxF0, the engine. Requests arriving "
+             "while the operator's probe is outstanding (a schedule) are not explored.",
+        technique="Rocq proof (finite-state evaluation lifted by induction over histories) + translator-regenerated control programs and machine + in-Coq differential correspondence on a real handler",
+        design="5/C11",
+    ),
 }
 
 NOT_YET = {}
